@@ -142,6 +142,20 @@ def run(cx: Cx):
         else:
             cx.ok('R-FWD', f"{cq.split('.')[-1]} forwards its extents and constant zeros", where=cx.where(ctor, ev.line), function=ctor.qualname)
 
+    # the extents the ids are computed from, and the table they index, are fixed after construction
+    for ax, ext, _ in AXES:
+        for st_ in cx.effects.sites_of((ENV + 'SpaceWorld', ext)):
+            if st_.owner_q != ENV + 'SpaceWorld.__init__':
+                cx.violation('R-DISC', st_.owner_q, f"{ext}-fixed-after-construction",
+                             f"{st_.describe()}: a world's {ext} is rewritten after construction; cell ids, the range check and the "
+                             f"position table no longer agree for the cells that already exist", where=st_.where)
+    for st_ in cx.effects.sites_of((DW, 'cells')):
+        if st_.kind in ('rebind',) and st_.owner_q != DW + '.__init__':
+            cx.violation('R-DISC', st_.owner_q, 'cell-table-rebuilt-outside-the-constructor',
+                         f"{st_.describe()}: the cell table is replaced after construction: row labels / row order are no longer "
+                         f"the ids the position table was built with", where=st_.where)
+    cx.ok('R-DISC', 'extents and the cell table object are written only by the constructors', where=cx.where(dinit), function=dinit.qualname)
+
     # ------------------------------------------------------------ clause 1: producer facts
     pf = producer_facts(cx, dinit)
     comp = pf
@@ -241,6 +255,8 @@ def run(cx: Cx):
             check_id_poly(cx, get_cell, v.index, gs, coords['x'], coords['y'], coords['z'], cx.where(get_cell, p.last.line),
                           get_cell.qualname, 'get_cell')
     check_atomic(cx, get_cell.qualname, ['IndexError'])
+    from .common import check_overrides_forward
+    check_overrides_forward(cx, DW, ['get_cell', '_get_cell_pos_as_tuple'])
 
     # every in-package call site of the id function (the two if_int helpers are C10's; listed here for the floor)
     callers = cx.effects.callers_of(idf)
